@@ -6,7 +6,7 @@
 set -u
 PATCH=$(readlink -f "$1"); PROP=$2; TIER=${3:-quick}; SEED=${4:-0}
 WT=$(mktemp -d /tmp/allfed_mutant_XXXXXX); EV=$(mktemp -d /tmp/allfed_mutant_ev_XXXXXX)
-git -C /repo worktree add -q --detach "$WT" HEAD >/dev/null 2>&1 || { echo "worktree failed"; exit 3; }
+git -C /repo worktree add -q --detach "$WT" "${BASE:-HEAD}" >/dev/null 2>&1 || { echo "worktree failed"; exit 3; }
 # carry uncommitted working-tree changes of /repo too (normally none)
 if ! git -C "$WT" apply "$PATCH" 2>/tmp/apply_err_$$; then echo "PATCH-DOES-NOT-APPLY $(basename $PATCH): $(head -1 /tmp/apply_err_$$)"; rm -f /tmp/apply_err_$$; git -C /repo worktree remove --force "$WT"; rm -rf "$EV"; exit 3; fi
 rm -f /tmp/apply_err_$$
